@@ -248,7 +248,7 @@ def batch(arg):
             out["viol"].append({"mech": mech, "what": what, "files": files, "rule": rule, "span": span, "case": i})
         if not out["samples"] and rule:
             out["samples"].append({"case": i, "rule": rule, "snippet": "\n".join(files["m.emb"].split("\n")[span[0] - 1:span[1]])})
-    out["viol"] = out["viol"][:60]
+    out["viol"] = common.cap_by_mech(out["viol"])
     return out
 
 
